@@ -189,6 +189,8 @@ class Check:
             cmd += ["-simulate", simulate, "-seed", str(self.seed)]
         cmd += list(extra) + [module + ".tla"]
         env = dict(os.environ)
+        if "-Xss" not in env.get("JAVA_TOOL_OPTIONS", ""):     # recursive operators over long sequences need a deep stack
+            env["JAVA_TOOL_OPTIONS"] = (env.get("JAVA_TOOL_OPTIONS", "") + " -Xss256m").strip()
         if depth_first:
             env["JAVA_TOOL_OPTIONS"] = (env.get("JAVA_TOOL_OPTIONS", "") + " -Dtlc2.tool.queue.IStateQueue=StateDeque").strip()
         t = time.time()
